@@ -160,10 +160,11 @@ func c07pRun(t *testing.T, c c07pCase) (res c07pResult) {
 		defer func() { verifDialHook, verifRandHook = nil, nil }()
 		pending := func() bool { rmu.Lock(); defer rmu.Unlock(); return dialPending }
 
+		passive := strings.HasPrefix(c.Script, "p-")
 		w.start()
 		spec := simBotSpec{Name: "p", IP: [4]byte{10, 0, 0, 1}, AS: 65001, RouterID: [4]byte{1, 1, 1, 1}, HoldTime: c07Hold,
 			Neighbor: func(n *oc.Neighbor) {
-				n.Transport.Config.PassiveMode = false
+				n.Transport.Config.PassiveMode = passive
 				n.Transport.Config.LocalAddress = netip.AddrFrom4(w.serverIP)
 				n.Timers.Config.HoldTime = c07Hold
 				n.Timers.Config.KeepaliveInterval = c07KA
@@ -236,6 +237,65 @@ func c07pRun(t *testing.T, c c07pCase) (res c07pResult) {
 				func() { write(out, ka) },
 				func() { write(in, ka) },
 			}
+		case "est":
+			// an established session carries an UPDATE, then the remote sends a NOTIFICATION and closes; the
+			// daemon goes Idle -> Active and dials again; the second attempt is completed as well
+			nlri, _ := bgp.NewIPAddrPrefix(netip.MustParsePrefix("10.9.0.0/24"))
+			nh, _ := bgp.NewPathAttributeNextHop(netip.MustParseAddr("10.0.0.1"))
+			upd, _ := bgp.NewBGPUpdateMessage(nil, []bgp.PathAttributeInterface{
+				bgp.NewPathAttributeOrigin(0),
+				bgp.NewPathAttributeAsPath([]bgp.AsPathParamInterface{bgp.NewAs4PathParam(bgp.BGP_ASPATH_ATTR_TYPE_SEQ, []uint32{65001})}),
+				nh,
+			}, []bgp.PathNLRI{{NLRI: nlri}}).Serialize()
+			notif, _ := bgp.NewBGPNotificationMessage(bgp.BGP_ERROR_CEASE, bgp.BGP_ERROR_SUB_OTHER_CONFIGURATION_CHANGE, nil).Serialize()
+			steps = []func(){
+				func() { time.Sleep(minConnectRetryInterval*time.Second + time.Millisecond) },
+				dialOK,
+				func() { write(out, c07pOpen(false)) },
+				func() { write(out, ka) },
+				func() { write(out, upd) },
+				func() { write(out, notif) },
+				func() {
+					if out != nil {
+						out.mu.Lock()
+						out.selfClose = true
+						out.mu.Unlock()
+						out.conn.Close()
+					}
+				},
+				func() { time.Sleep(c07aRetry*time.Second + time.Second) },
+				dialOK,
+				func() { write(out, c07pOpen(false)) },
+				func() { write(out, ka) },
+			}
+		case "p-in":
+			// passive peer: inbound connection, session, UPDATE-less; the remote then closes and comes back
+			steps = []func(){
+				inConn,
+				func() { write(in, c07pOpen(false)) },
+				func() { write(in, ka) },
+				func() {
+					in.mu.Lock()
+					in.selfClose = true
+					in.mu.Unlock()
+					in.conn.Close()
+				},
+				func() { time.Sleep(c07aRetry*time.Second + time.Second) },
+				inConn,
+				func() { write(in, c07pOpen(false)) },
+				func() { write(in, ka) },
+			}
+		case "p-two":
+			// passive peer: a second inbound connection with an OPEN while the first is in OpenConfirm
+			var first *c07hRemote
+			steps = []func(){
+				inConn,
+				func() { write(in, c07pOpen(false)) },
+				func() { first = in; inConn() },
+				func() { write(in, c07pOpen(false)) },
+				func() { write(first, ka) },
+				func() { write(in, ka) },
+			}
 		case "badout":
 			steps = []func(){
 				func() { time.Sleep(minConnectRetryInterval*time.Second + time.Millisecond) },
@@ -298,7 +358,7 @@ func c07pRun(t *testing.T, c c07pCase) (res c07pResult) {
 					_ = w.s.StopBgp(context.Background(), &api.StopBgpRequest{})
 				}()
 			case "inconn":
-				if in == nil {
+				if in == nil || passive {
 					inConn()
 					synctest.Wait()
 					write(in, c07pOpen(false))
@@ -409,14 +469,26 @@ func c07pRun(t *testing.T, c c07pCase) (res c07pResult) {
 			_ = w.s.EnablePeer(context.Background(), &api.EnablePeerRequest{Address: addr})
 		}
 		synctest.Wait()
-		for i := 0; i < 120 && !pending(); i++ {
+		for i := 0; i < 120 && !pending() && !passive; i++ {
 			w.advance(time.Second)
 		}
-		if !pending() {
+		if passive {
+			// a passive peer is reachable once its idle-hold time is over
+			w.advance(60 * time.Second)
+		}
+		if !pending() && !passive {
 			bad("no-dial-after-enable", "no outbound connection attempt within 120 s of the enable")
 		} else {
-			fresh, sc := newRemote(40002, 179)
-			dialAns <- sc
+			var fresh *c07hRemote
+			if passive {
+				prevIn := in
+				inConn()
+				fresh, in = in, prevIn
+			} else {
+				var sc net.Conn
+				fresh, sc = newRemote(40002, 179)
+				dialAns <- sc
+			}
 			synctest.Wait()
 			write(fresh, c07pOpen(false))
 			synctest.Wait()
@@ -469,7 +541,7 @@ func c07pJudge(r *vr.Report, t *testing.T, c c07pCase) c07pResult {
 func TestVerif_C07_Park(t *testing.T) {
 	r := vr.Start(t, "C07", "park")
 	defer r.Finish()
-	r.Rule = "whole daemon, one active peer; scripts {session over the dialled connection; inbound connection + OPEN first, then the dial; dialled connection + OPEN, then an inbound one; bad OPEN on the dialled connection, retry} x every record the daemon logs from the first connect delay on (and the dial's return): the goroutine emitting it held there x meanwhile {nothing, DisablePeer, DeletePeer (then the peer is added again instead of enabled), StopBgp (every connection closed, every goroutine gone), inbound connection + OPEN, remote closes its connections, the rest of the script}; then release, DisablePeer, 10 s, invariants (Idle, reported Idle/down, every connection closed, NOTIFICATION where our OPEN went out, hand-over channels empty), EnablePeer, dial within 120 s, clean session reaches Established; non-trivial = distinct (script, park site, perturbation)"
+	r.Rule = "whole daemon, one active peer; scripts {session over the dialled connection; inbound connection + OPEN first, then the dial; dialled connection + OPEN, then an inbound one; bad OPEN on the dialled connection, retry; established session with an UPDATE, NOTIFICATION from the remote, second session; passive peer: session, remote closes and comes back; passive peer: second inbound connection during OpenConfirm} x every record the daemon logs from the first connect delay on (and the dial's return): the goroutine emitting it held there x meanwhile {nothing, DisablePeer, DeletePeer (then the peer is added again instead of enabled), StopBgp (every connection closed, every goroutine gone), inbound connection + OPEN, remote closes its connections, the rest of the script}; then release, DisablePeer, 10 s, invariants (Idle, reported Idle/down, every connection closed, NOTIFICATION where our OPEN went out, hand-over channels empty), EnablePeer, dial within 120 s, clean session reaches Established; non-trivial = distinct (script, park site, perturbation)"
 	r.Assumptions = append(r.Assumptions, "park sites are the daemon's log records and the dial seam's return; sites reached with the peer's FSM lock or the server's table lock taken are skipped (counted in extra.skipped_under_lock)")
 	if r.ReplayPath() != "" {
 		var c c07pCase
@@ -508,7 +580,7 @@ func TestVerif_C07_Park(t *testing.T) {
 		progress.Add(1)
 		return res
 	}
-	for _, script := range []string{"out", "infirst", "outthenin", "badout"} {
+	for _, script := range []string{"out", "infirst", "outthenin", "badout", "est", "p-in", "p-two"} {
 		base := c07pJudgeW(r, t, c07pCase{Script: script, Park: -1, X: "none"})
 		k := base.records
 		for p := 0; p < k+6; p++ {
@@ -534,7 +606,7 @@ func TestVerif_C07_Park(t *testing.T) {
 	}
 	sort.Strings(names)
 	r.States = int64(len(sites))
-	r.Bounds = map[string]any{"scripts": 4, "perturbations": 7, "park_sites_distinct": len(sites)}
+	r.Bounds = map[string]any{"scripts": 7, "perturbations": 7, "park_sites_distinct": len(sites)}
 	r.Extra = map[string]any{"park_sites": names, "skipped_under_lock": skipped}
 	if len(sites) < 8 {
 		t.Fatalf("ENGINE-ERROR vacuous exploration: only %d park sites were reached (%v)", len(sites), names)
